@@ -125,6 +125,18 @@ def _decorator_names(node) -> list[str]:
     return out
 
 
+def _number_nodes(tree: ast.AST) -> None:
+    """node._ord = position in a depth-first walk of the (normalised) tree: an execution-order proxy inside straight-line
+    code that, unlike lineno, is also right for code the normaliser moved (inlined helpers keep their own line numbers)."""
+    counter = 0
+    stack = [tree]
+    while stack:
+        n = stack.pop()
+        n._ord = counter
+        counter += 1
+        stack.extend(reversed(list(ast.iter_child_nodes(n))))
+
+
 class Program:
     """All of pyhms as parsed source."""
 
@@ -168,6 +180,7 @@ class Program:
                     tree = normalize_module(tree)
                 except RecursionError as e:  # pragma: no cover
                     raise AnalysisError(f"normalisation of {rel} failed: {e}") from e
+            _number_nodes(tree)
             h.update(str(rel).encode())
             h.update(src.encode())
             m = Module(name=name, path=p, relpath=str(rel), source=src, tree=tree)
